@@ -85,7 +85,7 @@ func runExact(c *Case) []string {
 func genC08(tier string, r *Rng, emit func(Case)) {
 	thorough := tier == "thorough"
 	verbs := []int{'f', 'F', 'e', 'E', 'g', 'G', 'v', 'f', 'e', 'g', 'v', 'd', 's', 'x', 'q', 'é', 'z', 'U'}
-	exps := []int{-7, -5, -4, -3, -2, -1, 0, 1, 2, 3, 5, 6, 7, 8, 9, 15, 16, 17, 18, 40, -40, 1000, -1000}
+	exps := []int{-7, -5, -4, -3, -2, -1, 0, 1, 2, 3, 5, 6, 7, 8, 9, 15, 16, 17, 18, 40, -40, 1000, -1000, -63, -64, -65, -100, -140, 64, 100}
 	n := 5000
 	if thorough {
 		n = 500000
@@ -98,7 +98,7 @@ func genC08(tier string, r *Rng, emit func(Case)) {
 		case 0:
 			// the zero number
 		case 1, 2:
-			L = r.Pick([]int{1, 2, 3, 5, 8, 15, 16, 17, 20})
+			L = r.Pick([]int{1, 2, 3, 5, 8, 15, 16, 17, 20, 101, 130})
 			raw = randDigits(r, L)
 			if r.Intn(3) == 0 { // trailing zeros inside the digit string
 				for k := L / 2; k < L; k++ {
@@ -159,6 +159,13 @@ func genC08(tier string, r *Rng, emit func(Case)) {
 			}
 			if L > 0 {
 				cands = append(cands, L-1, L, L+1, L-exp, L-exp+1)
+			}
+			if exp <= -60 {
+				// long runs of zeros after the decimal point
+				cands = append(cands, -exp-1, -exp, -exp+1, -exp+3, 63, 64, 65, 75, 100, 130)
+			}
+			if L < 0 || L > 100 {
+				cands = append(cands, 99, 100, 101, 120, 150, 250) // more than one storage block of significant digits
 			}
 			prec = r.Pick(cands)
 			if prec < 0 {
